@@ -4,6 +4,10 @@ sys.path.insert(0, os.path.dirname(os.path.abspath(__file__)))
 from builder_check import *  # noqa
 
 PID = "C03"
+
+
+def mkpt3(x, y, z):
+    return (Fraction(x), Fraction(y), Fraction(z))
 TEMPS = {140: "bed-temperature", 190: "bed-temperature", 104: "hotend-temperature", 109: "hotend-temperature",
          141: "chamber-temperature", 191: "chamber-temperature"}
 
@@ -111,6 +115,11 @@ def tracer_cases(run):
 
 
 CORPUS = [
+    # a move hook rewrites F / S: the hook's value is what is written, so it is the value that has to pass the bounds
+    (5, [("set_bounds", "feed-rate", Fraction(100), Fraction(1000)), ("set_bounds", "tool-power", Fraction(0), Fraction(100)),
+         ("add_hook", ("set", 1, "F", Fraction(2400))), ("move", "linear", {"x": Fraction(6)}, [("F", Fraction(500))]),
+         ("remove_hook", 1), ("add_hook", ("set", 2, "S", Fraction(500))), ("move", "linear", {"x": Fraction(7)}, []),
+         ("polyline", [mkpt3(8, 1, 0), mkpt3(9, 2, 0)], [])]),
     (5, [("set_bounds", "axes", (Fraction(0), Fraction(0), Fraction(0)), (Fraction(20), Fraction(20), Fraction(20))),
          ("move", "linear", {"x": Fraction(1), "y": Fraction(1), "z": Fraction(1)}, []), ("probe", "towards", {"z": Fraction(-50)}, []),
          ("set_distance", "relative"), ("move", "linear", {"x": Fraction(25)}, []), ("move_abs", "rapid", {"y": Fraction(21)}, [])]),
